@@ -18,9 +18,7 @@ error class.  Abstractions:
    `!=` on strings and `bytes.Equal` (nil ≡ empty) are list equality;
  * an address is the big-endian number of its 20 bytes (`Compare` is `<`);
  * a `time.Time` is the exact number of nanoseconds since the Unix epoch (an
-   `Int`); `After`/`Equal` compare instants; `UnixNano()` is that number wrapped
-   into int64 (what Go documents as "undefined" outside 1678–2262 is, in the
-   implementation, exactly the wrapped product);
+   unbounded `Int`); `After`/`Before`/`Equal` compare instants;
  * a BlockID is an id assigned by the harness (0 = zero BlockID, equal ids ⇔
    `Equals`), as in C36; the header's `LastBlockID` additionally carries the three
    quantities its `ValidateBasic` looks at;
@@ -29,10 +27,10 @@ error class.  Abstractions:
    inputs: the harness computes them with the real functions;
  * a signature is the Boolean `LastValidators[i].PubKey.VerifyBytes(commit.VoteSignBytes(chainID,i), sig)`
    (C36's abstraction), computed by the harness with real ed25519;
- * `sort.Slice` in `WeightedMedian` is modelled by a stable insertion sort on the
-   int64 key; Go's pdqsort is not stable, but the result of `WeightedMedian` does
-   not depend on the order among equal keys unless two DIFFERENT instants have
-   the same wrapped `UnixNano` (2^64 ns ≈ 584 years apart).
+ * `sort.Slice` in `WeightedMedian` (comparison `Time.Before` since repo commit
+   6794836d2f) is modelled by a stable insertion sort on the instant; Go's pdqsort
+   is not stable, but the result of `WeightedMedian` does not depend on the order
+   among equal instants.
 Core-only.
 -/
 namespace GnoVerif.C32
@@ -255,10 +253,10 @@ def medianCollectByField (vals : ValSet) : List (Option Precommit) → Int → L
       | some v => medianCollectByField vals ps (wrap64 (total + v.power)) (⟨p.ts, v.power⟩ :: acc)
 
 /-- insertion of an element that originally preceded all of the list into a list
-sorted by `UnixNano()`: before the first element whose key is not smaller (stable). -/
+sorted by instant (`Time.Before`): before the first element that is not earlier (stable). -/
 def insertWT (x : WT) : List WT → List WT
   | [] => [x]
-  | y :: ys => if wrap64 y.time < wrap64 x.time then y :: insertWT x ys else x :: y :: ys
+  | y :: ys => if y.time < x.time then y :: insertWT x ys else x :: y :: ys
 
 def sortWT : List WT → List WT
   | [] => []
@@ -278,9 +276,29 @@ def medianTime (c : Commit) (vals : ValSet) : Int :=
   let (total, wts) := medianCollect vals c.precommits 0 []
   weightedMedian wts total
 
+/-- `WeightedMedian` as it was before repo commit 6794836d2f: sorted by `UnixNano()`,
+i.e. by the instant WRAPPED into int64 (Go documents the result as undefined outside
+the years 1678–2262; the implementation is exactly the wrapped product).  Kept only to
+state what the fix removed. -/
+def insertWTByUnixNano (x : WT) : List WT → List WT
+  | [] => [x]
+  | y :: ys => if wrap64 y.time < wrap64 x.time then y :: insertWTByUnixNano x ys else x :: y :: ys
+
+def sortWTByUnixNano : List WT → List WT
+  | [] => []
+  | x :: xs => insertWTByUnixNano x (sortWTByUnixNano xs)
+
+def weightedMedianByUnixNano (wts : List WT) (total : Int) : Int :=
+  pickMedian (sortWTByUnixNano wts) (Int.tdiv total 2)
+
+/-- `MedianTime` before repo commit 6794836d2f (slot weights, `UnixNano()` order). -/
+def medianTimeByUnixNano (c : Commit) (vals : ValSet) : Int :=
+  let (total, wts) := medianCollect vals c.precommits 0 []
+  weightedMedianByUnixNano wts total
+
 /-- `MedianTime` before repo commit cbe9f9a39b (`none` = nil-pointer panic). -/
 def medianTimeByField (c : Commit) (vals : ValSet) : Option Int :=
-  (medianCollectByField vals c.precommits 0 []).map fun (total, wts) => weightedMedian wts total
+  (medianCollectByField vals c.precommits 0 []).map fun (total, wts) => weightedMedianByUnixNano wts total
 
 /-! ### ValidatorSet.HasAddress -/
 
